@@ -81,6 +81,16 @@ func CatalogueForms() []Form {
 		c("string_less", "rb = s < \"b\""), c("string_ge", "rb = s >= \"ab\""),
 		c("signed_shift", "r = uint64((int(x) - int(y)) >> 1)"), c("signed_rem", "r = uint64((int(x) - int(y)) % 3)"),
 		c("signed_len_cmp", "rb = len(xs) < 8"), c("signed_len_sub_cmp", "rb = len(xs)-8 < 0"),
+		// (last probe of the repaired tree)
+		cd("make_map_hint_effect_h9", "func hintOf(p *uint64) uint64 {\n\t*p = *p + 1\n\treturn 4\n}\n", "mq := make(map[uint64]uint64, hintOf(p))\nmq[1] = x\nr = mq[1] + *p"),
+		c("append_string_spread_h9", "bq := make([]byte, 1)\nbq = append(bq, \"abc\"...)\nr = uint64(len(bq))"),
+		c("conv_uint16_cmp_h9", "rb = uint16(x) == uint16(y+65536)"), c("conv_rune_cmp_h9", "rb = rune(x) == rune(x+4294967296)"),
+		c("conv_int32_cmp_h9", "rb = int32(w) == int32(w)"), c("conv_uint16_lt_h9", "rb = uint16(x+65536) < uint16(y|1)"),
+		cd("opassign_index_call_h9", "func nextIdx(p *uint64) uint64 {\n\t*p = *p + 1\n\treturn *p % 2\n}\n", "xs[nextIdx(p)] += 10\nr = xs[0] + xs[1]*100 + *p*10000"),
+		cd("opassign_map_key_call_h9", "func nextKey(p *uint64) uint64 {\n\t*p = *p + 1\n\treturn *p\n}\n", "m[nextKey(p)] += 10\nr = uint64(len(m)) + *p*100"),
+		c("tuple_assign_index_phase_h9", "var i uint64 = 0\ni, xs[i] = twoU(0)\nr = xs[0] + xs[1]*100 + i*10000"),
+		c("nested_field_store_local_h9", "q := S{f: 1, g: 2, in: In{h: 3}}\nq.in.h = x\nr = q.in.h + q.f"),
+		c("nested_field_opassign_local_h9", "q := S{f: 1, g: 2, in: In{h: 3}}\nq.in.h += x\nr = q.in.h"),
 		// conversions to int of unsigned operands (not known to be non-negative as int: x >= 2^63)
 		c("signed_conv_cmp", "rb = int(x) < int(y)"), c("signed_conv_len_cmp", "rb = len(xs) < int(x)"),
 		c("signed_conv_quot", "r = uint64(int(x) / 2)"), c("signed_conv_u32_cmp", "rb = int(w) < int(w+1)"),
